@@ -563,3 +563,90 @@ def dispatch_contracts():
                for cls in ("ODLEncoder", "PDSLabelEncoder") for kl in ("int", "none")]
     out.append(c)
     return out
+
+
+# ------------------------------------------------------------------------------------------------
+# T_enc: the final character-set sweep of PVLEncoder.encode (C12 / C15): a text is returned only if
+# every one of its characters is allowed by the encoder's grammar; ODL / PDS3 wrappers keep that
+
+def sweep_contracts():
+    from ..pyvc.core import LoopSpec, Z
+    from ..pyvc.objtheory import S, sval, strcat
+    from ..pyvc.lextheory import allowed
+    from ..pyvc.enctheory import all_chars_allowed, gconst
+    E = "pvl.encoder."
+    NLc = z3.Const("self_newline", S)
+    out = []
+    em = Contract(E + "PVLEncoder.encode_module", params={"module": "pyval", "level": "int"}, exits=[
+        Exit("return", res=lambda ex: Z("str", z3.Const("result_of_encode_module", S))), Exit("ValueError"), Exit("TypeError")])
+    em.assumed = True
+    em.note = "signature only: the statements' text (bounded conformance reader, T_enc string contracts)"
+    out.append(em)
+    loop = LoopSpec(
+        fall_through=lambda env, st, x: [("the character is allowed by the grammar", allowed(x))],
+        exit=lambda env, st: [("every character of the text is allowed", all_chars_allowed(sval(env["s"])))])
+    c = Contract(E + "PVLEncoder.encode", params={"module": "pyval"}, loops={0: loop}, exits=[
+        Exit("return", res="str", post=lambda pre, post, a, r: [
+            ("the returned text consists of characters of the grammar's character set only", all_chars_allowed(r.t))]),
+        Exit("ValueError"), Exit("TypeError")], props=("C12", "C15"))
+    c.cases = [(cls, {"module": "pyval", "__cls__": cls}) for cls in ("PVLEncoder", "ISISEncoder")]
+    out.append(c)
+    return out
+
+
+# ------------------------------------------------------------------------------------------------
+# T_enc: encode_aggregation_block (C12: begin/end statements from the grammar's preferred keywords, the block
+# closed by the end statement of the same family, carrying the block name when so configured)
+
+def block_contracts():
+    from ..pyvc.core import Z
+    from ..pyvc.objtheory import S, sval, strcat, lit
+    from ..pyvc.lextheory import tid
+    from ..pyvc.enctheory import type_is, type_id, gconst, first_of, fmt_fn, module_text
+    E = "pvl.encoder."
+    NL = z3.Const("self_newline", S)
+    DELIM = first_of(tid("g.delimiters"))
+    ED = z3.Const("self_end_delimiter", z3.BoolSort())
+    AE = z3.Const("self_aggregation_end", z3.BoolSort())
+    out = []
+    f = Contract(E + "PVLEncoder.format", params={"s": "str", "level": "int"}, exits=[
+        Exit("return", res=lambda ex: Z("str", fmt_fn(sval(ex.st.ghost["call_args"]["s"]), ex.as_int(ex.st.ghost["call_args"]["level"]))))])
+    f.assumed = True
+    f.note = "a function of (text, level) only (indentation and textwrap: bounded conformance reader)"
+    out.append(f)
+    em = Contract(E + "PVLEncoder.encode_module", params={"module": "pyval", "level": "int"}, exits=[
+        Exit("return", res=lambda ex: Z("str", module_text(ex.st.ghost["call_args"]["module"].info["id"],
+                                                          ex.as_int(ex.st.ghost["call_args"]["level"])))),
+        Exit("ValueError"), Exit("TypeError")])
+    em.assumed = True
+    em.note = "a function of (mapping, level) or an exception"
+    out.append(em)
+
+    def post(pre, post_, a, r):
+        v = a["value"].info["id"]
+        key, lvl = sval(a["key"]), a["level"].t
+        grp = type_is(v, type_id("self.grpcls"))
+        k0 = z3.If(grp, gconst("group_pref_keywords_begin"), gconst("object_pref_keywords_begin"))
+        k1 = z3.If(grp, gconst("group_pref_keywords_end"), gconst("object_pref_keywords_end"))
+
+        def named(k):
+            return strcat(strcat(k, lit(" = ")), key)
+
+        def delim(t):
+            return z3.If(ED, strcat(t, DELIM), t)
+        begin = delim(named(k0))
+        end = delim(z3.If(AE, named(k1), k1))
+        want = strcat(strcat(strcat(strcat(fmt_fn(begin, lvl), NL), module_text(v, lvl + 1)), NL), fmt_fn(end, lvl))
+        return [("begin statement '<preferred begin keyword of the family> = <name>', the body one level deeper, and the end statement "
+                 "of the same family carrying the name exactly when aggregation_end is set, each followed by the delimiter when "
+                 "configured, joined by the encoder's newline", r.t == want)]
+
+    def not_mapping(pre, a):
+        v = a["value"].info["id"]
+        return z3.And(z3.Not(type_is(v, type_id("self.grpcls"))), z3.Not(type_is(v, type_id("abc.Mapping"))))
+    c = Contract(E + "PVLEncoder.encode_aggregation_block", params={"key": "str", "value": "pyval", "level": "int"}, exits=[
+        Exit("return", res="str", when=lambda pre, a: z3.Not(not_mapping(pre, a)), post=post),
+        Exit("ValueError"), Exit("TypeError")], props=("C12", "C01"))
+    c.cases = [(cls, {"key": "str", "value": "pyval", "level": "int", "__cls__": cls}) for cls in ("PVLEncoder", "ODLEncoder", "ISISEncoder")]
+    out.append(c)
+    return out
